@@ -6,8 +6,8 @@
    Cache directory = (files, strays):
      files   the regular files at the canonical path <dirname>/<hex[0..2]>/<hex>  (what
              Cache::read_full / read_partial / write_bytes / remove address);
-     strays  regular files with a 64-hex name anywhere else below <dirname>/ : WalkDir
-             lists them (Cache::list_with_size) but no other method can reach them.
+     strays  regular files with a 64-hex name anywhere else below <dirname>/ : no method can
+             read or remove them; Cache::list_with_size reports them iff `lists_strays`.
    Offsets/lengths are nat (u32 overflow of offset+length is outside the model);
    a result None = Err or panic. *)
 From Verif.Base Require Import Tactics.
@@ -49,7 +49,7 @@ Definition sizes_of (t : ftype) (m : fmap) : list (id * nat) :=
 Definition strays_of (t : ftype) (s : list (key * nat)) : list (id * nat) :=
   flat_map (fun p => if ft_eqb (fst (fst p)) t then [(snd (fst p), snd p)] else []) s.
 Definition c_list (c : cache) (t : ftype) : list (id * nat) :=
-  sizes_of t (files c) ++ strays_of t (strays c).
+  sizes_of t (files c) ++ (if lists_strays then strays_of t (strays c) else []).
 
 (* HashMap::remove(id): size of the entry (the canonical file wins over a stray of the
    same name — the walk order is not specified; the correspondence avoids such pairs) *)
